@@ -18,6 +18,7 @@ import (
 	"sort"
 	"strconv"
 	"strings"
+	"sync"
 
 	"go.pennock.tech/tabular"
 	"go.pennock.tech/tabular/auto"
@@ -1513,6 +1514,7 @@ func (x *Exec) do1(line string) (res string, leanLine string) {
 		err := w.obj.RenderTo(dst)
 		return fmt.Sprintf("res=%s calls=%d acc=%s", classify(err), fw.calls, hx(fw.acc.String())), leanLine
 	case "register":
+		builtinNames() // the built-in list is what is there before this process registers anything
 		decoration.RegisterDecorationName(unhx(toks[1]), parseDecor(toks[2]))
 		registeredNames[unhx(toks[1])] = toks[2]
 		return "ok", line
@@ -1581,10 +1583,19 @@ var lastErrText string
 // registeredNames: every decoration name this process registered (name -> encoded decoration),
 // kept by the harness so the oracles do not have to trust the registry's own listing.
 var registeredNames = map[string]string{}
-var builtinNames = func() []string {
-	_ = startupViolation // ordering: the first-touch probe runs before anything else reads the registry
-	return decoration.RegisteredDecorationNames()
-}()
+
+// builtinNames: what the library's init registered, read on first use (not at package initialisation:
+// the race-validation process probes the registry before anything else has touched it)
+var (
+	builtinOnce sync.Once
+	builtinList []string
+)
+
+func builtinNames() []string {
+	builtinOnce.Do(func() { builtinList = decoration.RegisteredDecorationNames() })
+	return builtinList
+}
+
 var rcCalls []int
 
 func itemSame(a, b interface{}) (same bool) {
@@ -1634,7 +1645,66 @@ func registerCB(t *tabular.ATable, owner tabular.PropertyOwner, when, target str
 }
 
 // chainLen counts the links of an owner's property chain through %#v.
+// chainLenWalk counts the links of an owner's property chain by walking the structure itself with
+// reflection: from the owner, the (embedded) holder struct whose only field is of an interface type, then
+// from node to node along the field of that same interface type, until a node has none.  Independent of
+// field names and of the debug output's format; ok=false when the structure is not of that shape.
+func chainLenWalk(po interface{}) (n int, ok bool) {
+	defer func() {
+		if recover() != nil {
+			n, ok = 0, false
+		}
+	}()
+	v := reflect.ValueOf(po)
+	for v.Kind() == reflect.Ptr || v.Kind() == reflect.Interface {
+		if v.IsNil() {
+			return 0, false
+		}
+		v = v.Elem()
+	}
+	if v.Kind() != reflect.Struct {
+		return 0, false
+	}
+	var head reflect.Value
+	for i := 0; i < v.NumField() && !head.IsValid(); i++ {
+		f := v.Field(i)
+		if f.Kind() == reflect.Struct && f.NumField() == 1 && f.Field(0).Kind() == reflect.Interface {
+			head = f.Field(0)
+		}
+	}
+	if !head.IsValid() {
+		return 0, false
+	}
+	cur := head
+	for steps := 0; steps < 1000000; steps++ {
+		if cur.IsNil() {
+			return n, true
+		}
+		e := cur.Elem()
+		if e.Kind() != reflect.Ptr || e.IsNil() || e.Elem().Kind() != reflect.Struct {
+			return n, true // the terminal "no property" value
+		}
+		st := e.Elem()
+		var next reflect.Value
+		for i := 0; i < st.NumField(); i++ {
+			if f := st.Field(i); f.Kind() == reflect.Interface && f.Type() == head.Type() {
+				next = f
+				break
+			}
+		}
+		if !next.IsValid() {
+			return n, true
+		}
+		n++
+		cur = next
+	}
+	return 0, false
+}
+
 func (x *Exec) chainLen(owner string) int {
+	if n, ok := chainLenWalk(x.owner(owner)); ok {
+		return n
+	}
 	p := strings.Split(owner, ":")
 	var s string
 	switch p[0] {
